@@ -280,6 +280,145 @@ func m1cEval(in []int64) (out []int64) {
 // model output has 7 trailing state fields after -2 that the API cannot show; cut them off
 // on the model side instead: the harness prints only -2, the comparison is done on the prefix.
 
+
+// m1cMonitor evaluates the property conclusions directly on what the implementation did
+// (no model involved). Returns kind "" when everything holds.
+func m1cMonitor(in []int64) func(obs []int64) (string, string) {
+	return func(obs []int64) (string, string) {
+		_, _, _, labs := m1cDecode(in)
+		if len(obs) == 1 && obs[0] == -7 {
+			return "C06-C16-panic", "a library goroutine panicked"
+		}
+		if len(obs) == 1 && obs[0] == -8 {
+			return "C07-hang", "the history did not finish within the watchdog"
+		}
+		// split per event
+		var segs [][]int64
+		cur := []int64(nil)
+		started := false
+		for _, x := range obs {
+			if x == -1 || x == -2 {
+				if started {
+					segs = append(segs, cur)
+				}
+				cur = nil
+				started = true
+				if x == -2 {
+					break
+				}
+				continue
+			}
+			cur = append(cur, x)
+		}
+		if len(segs) != len(labs) {
+			return "", ""
+		}
+		written := map[int64]bool{}
+		concluded := map[int64]bool{}
+		accepted := map[int64]bool{}
+		rejected := map[int64]bool{}
+		lastW := int64(0)
+		outstanding := int64(0)
+		paused := false
+		stopped := true
+		for i, seg := range segs {
+			l := labs[i]
+			var ws, cbs [][]int64
+			for j := 0; j < len(seg); {
+				switch seg[j] {
+				case 1:
+					if seg[j+2] == 0 {
+						accepted[seg[j+1]] = true
+					} else {
+						rejected[seg[j+1]] = true
+					}
+					j += 3
+				case 2:
+					ws = append(ws, seg[j:j+2])
+					j += 2
+				case 3:
+					cbs = append(cbs, seg[j:j+4])
+					j += 4
+				case 8:
+					return "C07-hang", fmt.Sprintf("event %d: an API call or callback did not return", i)
+				default:
+					j++
+				}
+			}
+			switch l[0] {
+			case 5:
+				paused = true
+			case 6, 9:
+				paused = false
+				if l[0] == 9 {
+					stopped = false
+				}
+			case 8:
+				stopped = true
+				outstanding = 0
+			}
+			for _, w := range ws {
+				id := w[1]
+				if paused && l[0] != 6 && l[0] != 9 {
+					return "C10-write-while-disconnected", fmt.Sprintf("event %d: CALL %d written while disconnected", i, id)
+				}
+				if written[id] {
+					return "C02-written-twice", fmt.Sprintf("event %d: CALL %d written twice", i, id)
+				}
+				if !accepted[id] {
+					return "C01-rejected-written", fmt.Sprintf("event %d: CALL %d written but never accepted", i, id)
+				}
+				if id < lastW {
+					return "C02-order", fmt.Sprintf("event %d: CALL %d written after %d", i, id, lastW)
+				}
+				written[id], lastW = true, id
+			}
+			if len(ws) > len(cbs)+1 || (outstanding != 0 && len(ws) > len(cbs)) {
+				return "C02-two-outstanding", fmt.Sprintf("event %d: %d writes but %d conclusions (outstanding before: %d)", i, len(ws), len(cbs), outstanding)
+			}
+			for _, c := range cbs {
+				if c[1] != c[2] {
+					return "C01-foreign-conclusion", fmt.Sprintf("event %d: callback of request %d received the conclusion of %d", i, c[1], c[2])
+				}
+				if concluded[c[1]] {
+					return "C01-concluded-twice", fmt.Sprintf("event %d: request %d concluded twice", i, c[1])
+				}
+				if rejected[c[1]] {
+					return "C01-rejected-concluded", fmt.Sprintf("event %d: callback of rejected request %d invoked", i, c[1])
+				}
+				if stopped {
+					return "C16-callback-after-stop", fmt.Sprintf("event %d: callback of %d after Stop", i, c[1])
+				}
+				if !written[c[1]] {
+					return "C01-concluded-unwritten", fmt.Sprintf("event %d: request %d concluded but never written", i, c[1])
+				}
+				concluded[c[1]] = true
+				if outstanding == c[1] {
+					outstanding = 0
+				}
+			}
+			for _, w := range ws {
+				if !concluded[w[1]] {
+					outstanding = w[1]
+				}
+			}
+			if l[0] == 2 && l[1] != outstanding && len(ws)+len(cbs) > 0 {
+				// a reply that does not carry the outstanding id must be ignored
+				ok := false
+				for _, c := range cbs {
+					if c[1] == l[1] {
+						ok = true
+					}
+				}
+				if !ok {
+					return "C09-foreign-reply-effect", fmt.Sprintf("event %d: reply with foreign id %d caused writes/callbacks", i, l[1])
+				}
+			}
+		}
+		return "", ""
+	}
+}
+
 func m1cGen(cfg config, emit func(Case)) {
 	rng := rand.New(rand.NewSource(cfg.seed*7919 + 11))
 	corpus := [][]int64{
@@ -296,7 +435,7 @@ func m1cGen(cfg config, emit func(Case)) {
 		{0, 2, 0, 9, 1, 1, 1, 1, 2, 1, 1, 3, 1, 2, 1, 0, 1, 4, 1, 2, 2, 0, 2, 4, 1},
 	}
 	for _, c := range corpus {
-		emit(Case{Class: "corpus", Input: c, Comment: "corpus"})
+		emit(Case{Class: "corpus", Input: c, Comment: "corpus", Check: m1cMonitor(c)})
 	}
 	n := cfg.n
 	for i := 0; i < n; i++ {
@@ -377,11 +516,13 @@ func m1cGen(cfg config, emit func(Case)) {
 				in = append(in, 2, int64(rng.Intn(int(nextID))+0), 0)
 			}
 		}
-		emit(Case{Class: class, Input: in, Comment: ""})
+		emit(Case{Class: class, Input: in, Comment: "", Check: m1cMonitor(in)})
 	}
 }
 
 func init() {
-	properties["m1c"] = []*Entry{{Name: "m1c", Eval: m1cEval, Gen: m1cGen, Isolated: true}}
+	properties["m1c"] = []*Entry{{Name: "m1c", Eval: m1cEval, Gen: m1cGen, Isolated: true},
+		// the same histories, asked of the model only: is the executed schedule in class S0 and does it end quiescent?
+		{Name: "m1c_h", Eval: func(in []int64) []int64 { return []int64{1, 1} }, Gen: m1cGen}}
 	_ = sort.Ints
 }
